@@ -1011,6 +1011,13 @@ def gen_malformed():
         addx("x-sres-two-streams", [_start(), P, _desc("dB", "baseline", [("img", 1, True)]), sr,
                                     sd(1, 0, 1, "sr1", "dP"), sd(2, 1, 2, "sr1", "dB"), sd(3, 2, 3, "sr1", "dB"), _stop()])
         addx("x-no-stop", [_start(), P, ev(1), sr, sd(1, 0, 1)])
+        # dict semantics of the row: a data key named like a reserved column / like a ts_ column is overwritten in place
+        addx("x-reserved-key", [_start(), _desc("dR", "primary", [("time", 0, False), ("x", 0, False)]),
+                                ["event", "dR", 1, 1100, [["time", 5], ["x", 1]], [["time", 7], ["x", 2]]],
+                                ["event", "dR", 2, 1101, [["time", 6], ["x", 3]], [["time", 8], ["x", 4]]], _stop()])
+        addx("x-ts-key-clash", [_start(), _desc("dR", "primary", [("x", 0, False), ("ts_x", 0, False)]),
+                                ["event", "dR", 1, 1100, [["x", 1], ["ts_x", 9]], [["x", 2], ["ts_x", 3]]], _stop()])
+        addx("x-sres-redeclared", [_start(), P, sr, sd(1, 0, 1), ["sres", "sr1", "img", "/other"], sd(2, 1, 2), sd(3, 5, 6), _stop()])
         addx("x-events-different-keys", [_start(), P, ev(1), _stop()])
         # finding a: "<stream>_<key>" collision
         out.append({"bs": bs, "kind": "fdk-collision", "docs": [
